@@ -281,7 +281,7 @@ def check(prop, tier, only=None):
         from . import kanirun as K
         from . import kani_checks as KC
         for feat, tdir in (([], "kani-base"), (["--features", "seg"], "kani-base-seg")):
-            g = K.run_group(KC.BASE, os.path.join(C.CACHE, tdir), ["c09::"], jobs=1, timeout=900, extra=feat,
+            g = K.run_group(KC.BASE, C.keyed_target_dir(tdir), ["c09::"], jobs=1, timeout=900, extra=feat,
                             env_extra={"RUSTFLAGS": "--cfg ascent_verif"},
                             log=os.path.join(C.CACHE, "logs", "C09-kani-%s.log" % ("seg" if feat else "default")))
             rs = g["results"]
@@ -325,11 +325,16 @@ def check(prop, tier, only=None):
 
 
 def split_modules(cp):
+    """one JSON file per program module (workers load only what they need); keyed by the content of the expansion"""
     d = os.path.join(cp.dir, "mods")
     stamp = os.path.join(d, ".stamp")
-    src_m = os.path.getmtime(cp.json)
-    if os.path.exists(stamp) and os.path.getmtime(stamp) >= src_m:
+    with open(cp.json, "rb") as f:
+        digest = hashlib.sha256(f.read()).hexdigest()
+    if os.path.exists(stamp) and open(stamp).read().strip() == digest:
         return
+    if os.path.isdir(d):
+        import shutil
+        shutil.rmtree(d)
     os.makedirs(d, exist_ok=True)
     ast = cp.load_ast()
     for it in ast["items"]:
@@ -337,7 +342,7 @@ def split_modules(cp):
             with open(os.path.join(d, it["name"] + ".json"), "w") as f:
                 json.dump(it, f)
     with open(stamp, "w") as f:
-        f.write("ok")
+        f.write(digest)
 
 
 def replay(prop, path):
